@@ -90,6 +90,14 @@ DynSettingsCases ==
       fs \in {<<Fld(E("x-custom", "v1"), 2), Fld(E("x-custom", "v1"), 1)>>,
               <<Fld(E("x-a", "1"), 4), Fld(E("x-b", "2"), 3), Fld(E("x-a", "1"), 1), Fld(E("x-b", "2"), 1), Fld(E("x-a", "other"), 2)>>}}
 
+\* ---- respdyn: a server's first bytes need not be a SETTINGS frame for its header block to be decodable on its own: HEADERS at once,
+\* or after WINDOW_UPDATE / PING; the block inserts into its own dynamic table and refers to what it inserted
+RespDynCases ==
+  {Vec(FALSE, pre, [updates |-> u, fields |-> <<Fld(E(":status", "200"), 1)>> \o fs], Plain, <<>>, "respdyn") :
+      pre \in {<<>>, WindowUpdate(0, <<0, 100>>), Ping, Ping \o SettingsFrame(<<>>, FALSE)}, u \in {<<>>, <<4096>>},
+      fs \in {<<Fld(E("x-custom", "v1"), 2), Fld(E("x-custom", "v1"), 1)>>,
+              <<Fld(E("server", "srv/1"), 2), Fld(E("x-a", "1"), 4), Fld(E("server", "srv/1"), 1), Fld(E("x-a", "1"), 1)>>}}
+
 RECURSIVE Chars(_, _)
 Chars(c, n) == IF n = 0 THEN "" ELSE c \o Chars(c, n - 1)
 \* ---- maxframe: frames whose payload is exactly SETTINGS_MAX_FRAME_SIZE's initial value (16384 octets, legal) or one less:
@@ -130,7 +138,7 @@ SpecialCases ==
       tail \in {<<Fld(E("x-last", "1"), 4)>>, <<Fld(E("referer", ""), 1), Fld(E("x-last", "1"), 6)>>, <<Fld(E("cookie", ""), 4), Fld(E("referer", "https://r.example/"), 2)>>}}
 
 \* TLC evaluates every constant definition at start-up, so all families are emitted by one run
-Cases == RepCases \cup FramingCases \cup PrefixCases \cup DynCases \cup DynSettingsCases \cup RespCases \cup ValueCases \cup SpecialCases
+Cases == RepCases \cup FramingCases \cup PrefixCases \cup DynCases \cup DynSettingsCases \cup RespCases \cup ValueCases \cup SpecialCases \cup RespDynCases
 CaseSeq == SetToSeq(Cases)
 Emit(i) == PrintT("REPLAY " \o ToJson([i |-> i] @@ CaseSeq[i]))
 EmitMax(j) == PrintT("REPLAY " \o ToJson([i |-> 100000 + j] @@ MaxFrameAt(j)))
